@@ -28,6 +28,10 @@ inductive Cls where
   | pyroTimeout        -- Pyro5.errors.TimeoutError
   | connClosed         -- Pyro5.errors.ConnectionClosedError
   | valueError         -- raised by sock.recv(negative)
+  | assertionError     -- a failed `assert`
+  | unicodeDecodeError -- bytes.decode("ascii") on a byte >= 128
+  | protocolError      -- Pyro5.errors.ProtocolError
+  | zlibError          -- zlib.error
   deriving Repr, DecidableEq
 
 inductive Val where
@@ -38,6 +42,8 @@ inductive Val where
   | exc (cls : Cls) (retryable : Bool) (partialData : Option Bytes)
   | errno (retryable : Bool)        -- `getattr(x, "errno", x.args[0])`: all that is ever asked of it is `in ERRNO_RETRIES`
   | opaque                          -- the `__retrydelays()` generator
+  | str (codepoints : List Nat)     -- a Python str
+  | dict (items : List (List Nat × Bytes))   -- a dict from str to bytes, in insertion order
   deriving Repr, DecidableEq
 
 inductive Expr where
@@ -61,6 +67,10 @@ inductive Expr where
   | sliceFrom (e i : Expr)          -- e[i:]
   | emptyBytes                      -- bytearray()
   | delays                          -- __retrydelays()
+  | slice (e lo hi : Expr)          -- e[lo:hi] on bytes, indices >= 0 (Python clamps at the end)
+  | fromBytesBig (e : Expr)         -- int.from_bytes(e, "big")
+  | bitand (a b : Expr)             -- a & b on non-negative ints
+  | emptyDict                       -- {}
   deriving Repr
 
 inductive Stmt where
@@ -83,6 +93,11 @@ inductive Stmt where
   | raise_ (e : Expr)
   | brk
   | cont
+  | decodeAscii (x : String) (e : Expr)           -- x = bytes(e).decode("ascii")
+  | dictSetItem (d : String) (k v : Expr)         -- d[k] = v
+  | assert_ (e : Expr)                            -- assert e
+  | clearBits (x : String) (c : Expr)             -- x &= ~c   (x, c >= 0:  x - (x & c))
+  | decompress (x : String) (e : Expr)            -- x = zlib.decompress(e)
   deriving Repr
 
 /-- what the running program can see of its surroundings -/
@@ -91,6 +106,7 @@ structure Cfg where
   peercert : Bool                   -- hasattr(sock, "getpeercert")
   blocking : Bool                   -- sock.gettimeout() is None
   isSub : Cls → Cls → Bool          -- issubclass, as extracted from the real classes
+  unzip : Bytes → Option Bytes := fun _ => none   -- zlib.decompress (none = zlib.error)
 
 structure World where
   stream : Bytes                    -- what the peer will still send
@@ -116,6 +132,8 @@ def truthy : Val → Option Bool
   | .bool b => some b
   | .int i => some (i != 0)
   | .bytes b => some (!b.isEmpty)
+  | .str s => some (!s.isEmpty)
+  | .dict d => some (!d.isEmpty)
   | _ => some true
 
 def eval (cfg : Cfg) (env : Env) : Expr → Option Val
@@ -165,6 +183,17 @@ def eval (cfg : Cfg) (env : Env) : Expr → Option Val
     | _, _ => none
   | .emptyBytes => some (.bytes [])
   | .delays => some .opaque
+  | .slice e lo hi => match eval cfg env e, eval cfg env lo, eval cfg env hi with
+    | some (.bytes b), some (.int i), some (.int j) =>
+      if 0 ≤ i ∧ 0 ≤ j then some (.bytes ((b.drop i.toNat).take (j.toNat - i.toNat))) else none
+    | _, _, _ => none
+  | .fromBytesBig e => match eval cfg env e with
+    | some (.bytes b) => some (.int (fromBE b))
+    | _ => none
+  | .bitand a b => match eval cfg env a, eval cfg env b with
+    | some (.int x), some (.int y) => if 0 ≤ x ∧ 0 ≤ y then some (.int (x.toNat &&& y.toNat : Nat)) else none
+    | _, _ => none
+  | .emptyDict => some (.dict [])
 
 /-- one socket call that either transfers or raises -/
 inductive Sys where
@@ -180,6 +209,12 @@ def sys : List Ev → Sys
   | .fatal :: rest => .err (.exc .osError false none) rest
   | .timeout :: rest => .err (.exc .socketTimeout false none) rest
   | .partialFail k r :: rest => .sentThenErr k (.exc .osError r none) rest
+
+/-- Python `d[k] = v`: overwrite in place or append -/
+def dictPut (d : List (List Nat × Bytes)) (k : List Nat) (v : Bytes) : List (List Nat × Bytes) :=
+  match d with
+  | [] => [(k, v)]
+  | (k', v') :: rest => if k' = k then (k, v) :: rest else (k', v') :: dictPut rest k v
 
 def truth (cfg : Cfg) (env : Env) (c : Expr) : Option Bool :=
   match eval cfg env c with
@@ -284,6 +319,33 @@ def exec (cfg : Cfg) : Stmt → Nat → Option Val → Env → World → Res
     | _ => .stuck
   | .brk, _, _, env, w => .brk env w
   | .cont, _, _, env, w => .cont env w
+  | .decodeAscii x e, _, _, env, w =>
+    match eval cfg env e with
+    | some (.bytes b) =>
+      if b.any (· ≥ 128) then .raise (.exc .unicodeDecodeError false none) env w
+      else .normal ((x, .str (b.map UInt8.toNat)) :: env) w
+    | _ => .stuck
+  | .dictSetItem d k v, _, _, env, w =>
+    match env.lookup d, eval cfg env k, eval cfg env v with
+    | some (.dict items), some (.str key), some (.bytes val) => .normal ((d, .dict (dictPut items key val)) :: env) w
+    | _, _, _ => .stuck
+  | .assert_ e, _, _, env, w =>
+    match truth cfg env e with
+    | some true => .normal env w
+    | some false => .raise (.exc .assertionError false none) env w
+    | none => .stuck
+  | .clearBits x c, _, _, env, w =>
+    match env.lookup x, eval cfg env c with
+    | some (.int a), some (.int b) =>
+      if 0 ≤ a ∧ 0 ≤ b then .normal ((x, .int ((a.toNat - (a.toNat &&& b.toNat) : Nat))) :: env) w else .stuck
+    | _, _ => .stuck
+  | .decompress x e, _, _, env, w =>
+    match eval cfg env e with
+    | some (.bytes b) =>
+      match cfg.unzip b with
+      | some d => .normal ((x, .bytes d) :: env) w
+      | none => .raise (.exc .zlibError false none) env w
+    | _ => .stuck
 termination_by s fuel => (sizeOf s, fuel)
 
 /-- outcome of `receive_data` as the hand model reports it -/
